@@ -81,13 +81,9 @@ alignas(16) static char modebuf[sizeof(CovCalcMode)];
 
 static double enc(int row, int col) // injective code of a pair of sample ranks in [0, NR)
 {
-  if (g_symenc)
-  {
-    int lo = row < col ? row : col;
-    int hi = row < col ? col : row;
-    return (double)(hi * 100 + lo + 1);
-  }
-  return (double)(row * 100 + col + 1);
+  double r = (double)row, c = (double)col;
+  if (g_symenc) return r < c ? c * 100. + r + 1. : r * 100. + c + 1.;
+  return r * 100. + c + 1.;
 }
 static double weight(const CovAniso* c) { return c == (const CovAniso*)cabuf[0] ? 1. : 1000.; }
 
@@ -184,7 +180,9 @@ static ACovAnisoList* setup()
     for (int i = 0; i < NVR; i++)
       for (int j = i; j < NVR; j++) c->_sill.setValue(i, j, SILL[i][j]);
     SpacePoint* p = (SpacePoint*)p1buf[s];
-    for (int i = 0; i < NR; i++) { p[i]._iech = i; p[i]._target = false; }
+    // every 4-byte cell of the raw points is typed int (only _iech is ever read, at a symbolic index)
+    for (unsigned i = 0; i < NR * sizeof(SpacePoint) / sizeof(int); i++) ((int*)p1buf[s])[i] = 0;
+    for (int i = 0; i < NR; i++) p[i]._iech = i;
     c->_p1As._M_impl._M_start          = p;
     c->_p1As._M_impl._M_finish         = p + NR;
     c->_p1As._M_impl._M_end_of_storage = p + NR;
@@ -220,17 +218,17 @@ static void draw_tables()
     for (int r = 0; r < NR; r++) T_verr[ic][r] = vf_grid_double(50);
 }
 
-// mode: 0 = null pointer, 1 = all structures active (unitary flag arbitrary), 2 / 3 = only structure 0 / 1 active
-static const CovCalcMode* make_mode(int kind, bool unitary)
+// mode: 0 = null pointer, 1 = all structures active, 4 = all structures active and unitary (no sill), 2 / 3 = only structure 0 / 1 active
+static const CovCalcMode* make_mode(int kind)
 {
   if (kind == 0) return nullptr;
   CovCalcMode* m   = (CovCalcMode*)modebuf;
   m->_asVario      = false;
-  m->_unitary      = unitary;
+  m->_unitary      = (kind == 4);
   m->_orderVario   = 0;
-  m->_allActiveCov = (kind == 1);
+  m->_allActiveCov = (kind == 1 || kind == 4);
   new (&m->_activeCovList) VectorInt();
-  if (kind >= 2) m->_activeCovList.push_back(kind - 2);
+  if (kind == 2 || kind == 3) m->_activeCovList.push_back(kind - 2);
   return m;
 }
 
@@ -268,105 +266,77 @@ static bool same_cells(const AMatrix& a, const AMatrix& b)
   return ok;
 }
 
-static void one_sym(int modekind)
+// one scenario of the symmetric pair: niv active variables with ne0 / ne1 valid samples (both flags set)
+static void sym_case(int modekind, int niv, int ne0, int ne1)
 {
-  VectorInt nbgh(1);
-  for (int niv = 0; niv <= VF_NV; niv++)
-    for (int ne0 = 0; ne0 <= VF_NE; ne0++)
-      for (int ne1 = 0; ne1 <= VF_NE; ne1++)
-      {
-        if (niv < 2 && ne1 > 0) continue; // second variable absent: one scenario
-        if (niv < 1 && ne0 > 0) continue;
-        ACovAnisoList* L = setup();
-        g_symenc         = true;
-        g_niv = g_njv = niv;
-        g_base[0][0] = g_base[1][0] = ne0;
-        g_base[0][1] = g_base[1][1] = ne1;
-        draw_tables();
-        nbgh[0]                 = vf_nondet_int();
-        bool               unit = vf_nondet_bool();
-        const CovCalcMode* mode = make_mode(modekind, unit);
-        clear_rec();
-        g_run                    = 0;
-        MatrixSquareSymmetric m0 = L->evalCovMatrixSymmetric(DB1, TOK_I, nbgh, mode);
-        g_run                    = 1;
-        MatrixSquareSymmetric m1 = L->evalCovMatrixSymmetricOptim(DB1, TOK_I, nbgh, mode);
-        vf_assert_id(T_bad == 0, "symmetric: callbacks reached with expected arguments only");
-        vf_assert_id(same_request(0), "symmetric: optimised and plain request the active ranks of the same Db, variables and neighbourhood ranks");
-        vf_assert_id(g_rec[0][0].useSel == g_rec[1][0].useSel && g_rec[0][0].useVerr == g_rec[1][0].useVerr,
-                     "symmetric: optimised and plain request the active ranks with the same flags useSel / useVerr");
-        bool shape = m0.getNRows() == m1.getNRows() && m0.getNCols() == m1.getNCols();
-        vf_assert_id(shape, "symmetric: optimised and plain matrices have the same shape");
-        if (shape)
-          vf_assert_id(same_cells(m0, m1), "symmetric: optimised and plain matrices equal cell by cell (covariance code + variance of measurement error on the diagonal)");
-      }
+  VectorInt      nbgh(1);
+  ACovAnisoList* L = setup();
+  g_symenc         = true;
+  g_niv = g_njv = niv;
+  g_base[0][0] = g_base[1][0] = ne0;
+  g_base[0][1] = g_base[1][1] = ne1;
+  draw_tables();
+  nbgh[0]                 = vf_nondet_int();
+  const CovCalcMode* mode = make_mode(modekind);
+  clear_rec();
+  g_run                    = 0;
+  MatrixSquareSymmetric m0 = L->evalCovMatrixSymmetric(DB1, TOK_I, nbgh, mode);
+  g_run                    = 1;
+  MatrixSquareSymmetric m1 = L->evalCovMatrixSymmetricOptim(DB1, TOK_I, nbgh, mode);
+  vf_assert_id(T_bad == 0, "symmetric: callbacks reached with expected arguments only");
+  vf_assert_id(same_request(0), "symmetric: optimised and plain request the active ranks of the same Db, variables and neighbourhood ranks");
+  vf_assert_id(g_rec[0][0].useSel == g_rec[1][0].useSel && g_rec[0][0].useVerr == g_rec[1][0].useVerr,
+               "symmetric: optimised and plain request the active ranks with the same flags useSel / useVerr");
+  bool shape = m0.getNRows() == m1.getNRows() && m0.getNCols() == m1.getNCols();
+  vf_assert_id(shape, "symmetric: optimised and plain matrices have the same shape");
+  if (shape)
+    vf_assert_id(same_cells(m0, m1), "symmetric: optimised and plain matrices equal cell by cell (covariance code + variance of measurement error on the diagonal)");
+  vf_witness();
 }
 
-static void one_rect(int modekind)
+// one scenario of the rectangular pair.  Heterotopy: on side 1 the second variable has one valid sample less than
+// the first, on side 2 the first has one less than the second
+static void rect_case(int modekind, int niv, int njv, int ne1, int ne2)
 {
-  VectorInt nbgh1(1), nbgh2(2);
-  for (int niv = 0; niv <= VF_NV; niv++)
-    for (int njv = 0; njv <= VF_NV; njv++)
-      for (int ne1 = 0; ne1 <= VF_NE; ne1++)
-        for (int ne2 = 0; ne2 <= VF_NE; ne2++)
-        {
-          if ((niv == 0 || njv == 0) && (ne1 > 0 || ne2 > 0)) continue; // no active variable: one scenario
-          ACovAnisoList* L = setup();
-          g_symenc         = false;
-          g_niv            = niv;
-          g_njv            = njv;
-          // heterotopy: the second variable has one valid sample less than the first on side 1, one more on side 2
-          g_base[0][0] = ne1;
-          g_base[0][1] = ne1 > 0 ? ne1 - 1 : 0;
-          g_base[1][0] = ne2 > 0 ? ne2 - 1 : 0;
-          g_base[1][1] = ne2;
-          draw_tables();
-          nbgh1[0]                = vf_nondet_int();
-          nbgh2[0]                = vf_nondet_int();
-          nbgh2[1]                = vf_nondet_int();
-          bool               unit = vf_nondet_bool();
-          bool               two  = vf_nondet_bool();
-          const Db*          db2  = two ? DB2 : nullptr;
-          const CovCalcMode* mode = make_mode(modekind, unit);
-          clear_rec();
-          g_run                = 0;
-          MatrixRectangular m0 = L->evalCovMatrix(DB1, db2, TOK_I, TOK_J, nbgh1, nbgh2, mode);
-          g_run                = 1;
-          MatrixRectangular m1 = L->evalCovMatrixOptim(DB1, db2, TOK_I, TOK_J, nbgh1, nbgh2, mode);
-          vf_assert_id(T_bad == 0, "rectangular: callbacks reached with expected arguments only");
-          vf_assert_id(same_request(0) && same_request(1), "rectangular: optimised and plain request the active ranks of the same Dbs, variables and neighbourhood ranks");
-          vf_assert_id(g_rec[0][0].useSel == g_rec[1][0].useSel && g_rec[0][0].useVerr == g_rec[1][0].useVerr &&
-                       g_rec[0][1].useSel == g_rec[1][1].useSel && g_rec[0][1].useVerr == g_rec[1][1].useVerr,
-                       "rectangular: optimised and plain request the active ranks with the same flags useSel / useVerr");
-          bool shape = m0.getNRows() == m1.getNRows() && m0.getNCols() == m1.getNCols();
-          vf_assert_id(shape, "rectangular: optimised and plain matrices have the same shape");
-          if (shape)
-            vf_assert_id(same_cells(m0, m1), "rectangular: optimised and plain matrices equal cell by cell (covariance code)");
-        }
+  VectorInt      nbgh1(1), nbgh2(2);
+  ACovAnisoList* L = setup();
+  g_symenc         = false;
+  g_niv            = niv;
+  g_njv            = njv;
+  g_base[0][0]     = ne1;
+  g_base[0][1]     = ne1 > 0 ? ne1 - 1 : 0;
+  g_base[1][0]     = ne2 > 0 ? ne2 - 1 : 0;
+  g_base[1][1]     = ne2;
+  draw_tables();
+  nbgh1[0]                = vf_nondet_int();
+  nbgh2[0]                = vf_nondet_int();
+  nbgh2[1]                = vf_nondet_int();
+  bool               two  = vf_nondet_bool();
+  const Db*          db2  = two ? DB2 : nullptr;
+  const CovCalcMode* mode = make_mode(modekind);
+  clear_rec();
+  g_run                = 0;
+  MatrixRectangular m0 = L->evalCovMatrix(DB1, db2, TOK_I, TOK_J, nbgh1, nbgh2, mode);
+  g_run                = 1;
+  MatrixRectangular m1 = L->evalCovMatrixOptim(DB1, db2, TOK_I, TOK_J, nbgh1, nbgh2, mode);
+  vf_assert_id(T_bad == 0, "rectangular: callbacks reached with expected arguments only");
+  vf_assert_id(same_request(0) && same_request(1), "rectangular: optimised and plain request the active ranks of the same Dbs, variables and neighbourhood ranks");
+  vf_assert_id(g_rec[0][0].useSel == g_rec[1][0].useSel && g_rec[0][0].useVerr == g_rec[1][0].useVerr &&
+               g_rec[0][1].useSel == g_rec[1][1].useSel && g_rec[0][1].useVerr == g_rec[1][1].useVerr,
+               "rectangular: optimised and plain request the active ranks with the same flags useSel / useVerr");
+  bool shape = m0.getNRows() == m1.getNRows() && m0.getNCols() == m1.getNCols();
+  vf_assert_id(shape, "rectangular: optimised and plain matrices have the same shape");
+  if (shape)
+    vf_assert_id(same_cells(m0, m1), "rectangular: optimised and plain matrices equal cell by cell (covariance code)");
+  vf_witness();
 }
 
-extern "C" void k_sym()
-{
-  one_sym(0);
-  one_sym(1);
-  vf_witness();
-}
-extern "C" void k_rect()
-{
-  one_rect(0);
-  one_rect(1);
-  vf_witness();
-}
-// structures selected through the mode (CovCalcMode::setActiveCovList*)
-extern "C" void k_sym_sel()
-{
-  one_sym(2);
-  one_sym(3);
-  vf_witness();
-}
-extern "C" void k_rect_sel()
-{
-  one_rect(2);
-  one_rect(3);
-  vf_witness();
-}
+// entries: one scenario each (the registry lists them).  M: mode kind
+#define SYM(M, NIV, NE0, NE1) extern "C" void k_sym_m##M##_##NIV##NE0##NE1() { sym_case(M, NIV, NE0, NE1); }
+#define SYMS(M) SYM(M, 0, 0, 0) SYM(M, 1, 0, 0) SYM(M, 1, 1, 0) SYM(M, 1, 2, 0) \
+  SYM(M, 2, 0, 0) SYM(M, 2, 0, 1) SYM(M, 2, 0, 2) SYM(M, 2, 1, 0) SYM(M, 2, 1, 1) SYM(M, 2, 1, 2) SYM(M, 2, 2, 0) SYM(M, 2, 2, 1) SYM(M, 2, 2, 2)
+SYMS(0) SYMS(1) SYMS(2) SYMS(3) SYMS(4)
+#define RECT(M, NIV, NJV, NE1, NE2) extern "C" void k_rect_m##M##_##NIV##NJV##NE1##NE2() { rect_case(M, NIV, NJV, NE1, NE2); }
+#define RECTV(M, NIV, NJV) RECT(M, NIV, NJV, 0, 0) RECT(M, NIV, NJV, 0, 2) RECT(M, NIV, NJV, 1, 1) RECT(M, NIV, NJV, 1, 2) RECT(M, NIV, NJV, 2, 0) RECT(M, NIV, NJV, 2, 1) RECT(M, NIV, NJV, 2, 2)
+#define RECTS(M) RECT(M, 0, 2, 0, 0) RECT(M, 2, 0, 0, 0) RECTV(M, 1, 1) RECTV(M, 1, 2) RECTV(M, 2, 1) RECTV(M, 2, 2)
+RECTS(0) RECTS(1) RECTS(2) RECTS(3) RECTS(4)
